@@ -302,6 +302,7 @@ func (r *Report) finish() int {
 	var oblEv []map[string]any
 	var samples []any
 	knownHit := map[string]bool{}
+	var vacuous []int
 	replayDir := filepath.Join(r.Verif, "replays", r.Prop)
 	solverSecs := 0.0
 	bySolver := map[string]int{}
@@ -337,8 +338,7 @@ func (r *Report) finish() int {
 				continue
 			}
 			if sr.Status == "vacuous" {
-				lines = append(lines, fmt.Sprintf("BROKEN: %s was proved vacuously: %s", sr.Name, sr.Detail))
-				exit = 2
+				vacuous = append(vacuous, i)
 				continue
 			}
 			if sr.Status == "solver-disagreement" {
@@ -382,6 +382,23 @@ func (r *Report) finish() int {
 		}
 		if len(samples) < 4 && sr.Status == "discharged" {
 			samples = append(samples, map[string]any{"obligation": sr.Name, "goal": truncate(o.Goal, 600), "guard": truncate(o.Guard, 200)})
+		}
+	}
+	// vacuously proved obligations: explained when another obligation of the same function fails (an invariant that
+	// does not hold on entry makes the code after the loop head unreachable under it); otherwise a hole
+	for _, i := range vacuous {
+		sr, o := r.Results[i], r.Obls[i]
+		explained := false
+		for j, other := range r.Results {
+			if j != i && r.Obls[j].Func == o.Func && !r.Obls[j].Cover && other.Status != "discharged" && other.Status != "vacuous" {
+				explained = true
+			}
+		}
+		if explained {
+			lines = append(lines, fmt.Sprintf("note: %s is not reachable under the assumptions of its function, one of which fails (see the violation above)", sr.Name))
+		} else {
+			lines = append(lines, fmt.Sprintf("BROKEN: %s was proved vacuously: %s", sr.Name, sr.Detail))
+			exit = 2
 		}
 	}
 	// bounded stand-ins: reported apart, never counted among the obligations
